@@ -22,8 +22,7 @@ Proof.
 Qed.
 
 (** * The padding check, on one byte (finite: 256 bytes x 7 shift amounts) *)
-Definition last_byte_check (byte : N) (bit : nat) : bool :=
-  negb (N.eqb (N.land byte (N.land (N.shiftl 255 (N.of_nat bit)) 255)) 0).
+Definition last_byte_check (byte : N) (bit : nat) : bool := padding_reject byte (N.of_nat bit).
 Definition last_byte_spec (byte : N) (bit : nat) : bool :=
   existsb (fun i => byte_bit byte i) (seq bit (8 - bit)).
 
